@@ -980,6 +980,8 @@ func (x *Exec) step(f *Frame, st *State, ins ssa.Instruction) bool {
 			f.regs[in] = x.freshVal(st, in.Type(), "keyslice")
 		case *EncVal:
 			f.regs[in] = x.freshVal(st, in.Type(), "slice")
+		case *BufVal:
+			f.regs[in] = &BufView{Buf: sv, Lo: lo, Hi: hi}
 		default:
 			x.errorf("slice of %T", v)
 			return false
@@ -992,7 +994,7 @@ func (x *Exec) step(f *Frame, st *State, ins ssa.Instruction) bool {
 			break
 		}
 		if s == SBytes {
-			f.regs[in] = x.freshTerm("bytes", SBytes)
+			f.regs[in] = &BufVal{ID: x.freshName("buf"), Len: ln}
 			break
 		}
 		f.regs[in] = Con(s, ln, ZeroOf(s.Fields[1].Sort))
@@ -1066,6 +1068,67 @@ func (x *Exec) step(f *Frame, st *State, ins ssa.Instruction) bool {
 }
 
 type MapRef struct{ Obj *Obj }
+
+// BufVal: a byte buffer created with make([]byte, n) and filled piecewise (copy, PutUint32...).
+type BufVal struct {
+	ID    string
+	Len   *Term
+	Parts []bufPart
+}
+type bufPart struct {
+	Off *Term // nil = 0
+	Val *Term // Bytes
+}
+type BufView struct {
+	Buf    *BufVal
+	Lo, Hi *Term
+}
+
+// bufBytes: the abstract content of a buffer: concatenation of its parts in write order.
+func (x *Exec) bufBytes(st *State, b *BufVal) *Term {
+	if len(b.Parts) == 0 {
+		return UF("zero_bytes", SBytes, b.Len)
+	}
+	cur := b.Parts[0].Val
+	for _, p := range b.Parts[1:] {
+		n := UF("bytes_concat", SBytes, cur, p.Val)
+		// a fixed-width suffix can be split off again (A-HASH style injectivity of the layout)
+		if p.Val.kind == tUF && (p.Val.Op == "be32" || p.Val.Op == "be64") {
+			st.assume(Eq(UF("concat_suffix_fixed", SBytes, n), p.Val))
+			st.assume(Eq(UF("concat_prefix_fixed", SBytes, n), cur))
+		}
+		cur = n
+	}
+	return cur
+}
+
+// asBytes converts byte-like values to a Bytes term.
+func (x *Exec) asBytes(st *State, v Val) *Term {
+	switch b := v.(type) {
+	case *Term:
+		if b.Sort == SBytes {
+			return b
+		}
+		if b.Sort == SStr {
+			return bytesOfStr(b)
+		}
+	case *EncVal:
+		if b.V.Sort == SBytes {
+			return b.V
+		}
+		e := UF("enc<"+b.Enc+","+b.V.Sort.Name+">", SBytes, b.V)
+		// A-CODEC: encoding is injective (decode is its left inverse)
+		st.assume(Eq(UF("dec<"+b.Enc+","+b.V.Sort.Name+">", b.V.Sort, e), b.V))
+		return e
+	case *BufVal:
+		return x.bufBytes(st, b)
+	case *KeyVal:
+		return UF("keybytes<"+b.Fam.Name+">", SBytes, b.Fam.key(b.Args))
+	case *NilPtr:
+		return BytesNil
+	}
+	return nil
+}
 
 func callName(c *ssa.CallCommon) string {
 	if c.IsInvoke() {
